@@ -454,6 +454,29 @@ func runDeepCopy(c *core.Ctx) {
 							if li < len(x.Rhs) && selPath(x.Rhs[li]) == recvName+"."+f.Name() {
 								aliased = true
 							}
+							// copied by a helper of the package applied to the field (copyDescriptors(recv.F), recv.F.copyPtr()) whose
+							// body calls Copy on what it is given
+							if li < len(x.Rhs) {
+								if call, ok := x.Rhs[li].(*ast.CallExpr); ok {
+									mentions := false
+									ast.Inspect(call, func(m ast.Node) bool {
+										if e, ok := m.(ast.Expr); ok && selPath(e) == recvName+"."+f.Name() {
+											mentions = true
+										}
+										return true
+									})
+									if hd := pkgFuncDecl(pk, call); hd != nil && hd.Body != nil && mentions {
+										ast.Inspect(hd.Body, func(m ast.Node) bool {
+											if hc, ok := m.(*ast.CallExpr); ok {
+												if hs, ok := hc.Fun.(*ast.SelectorExpr); ok && hs.Sel.Name == "Copy" {
+													elemCopied = true
+												}
+											}
+											return true
+										})
+									}
+								}
+							}
 						}
 					}
 				case *ast.CallExpr:
